@@ -22,7 +22,9 @@ Names == { <<102, 111, 111, 45, 49, 46, 48>>,            \* foo-1.0
            <<102, 111, 111>>,                            \* foo
            <<102, 111, 111, 45, 49, 46, 48, 110, 98, 49>>, \* foo-1.0nb1
            <<98, 97, 122, 45, 57>>,                      \* baz-9
-           <<102, 111, 111, 45, 50, 46, 48, 114, 99, 49>> } \* foo-2.0rc1
+           <<102, 111, 111, 45, 50, 46, 48, 114, 99, 49>>, \* foo-2.0rc1
+           <<102, 111, 111, 43, 45, 49, 46, 48>>,          \* foo+-1.0   (ties with foo-1.0; '+' < '-')
+           <<102, 111, 111, 45, 49, 45, 51>> }             \* foo-1-3    (ties with foo-3; base foo-1)
 
 VARIABLES hist, phase
 vars == <<pat, cands, pool, lb, hist, phase>>
